@@ -243,7 +243,9 @@ def cmd_find(r, p):
         pat = r.choice(["op1", "op[0-3]", "Block", "^$", "x", "0x", "\\|", "long", "^ +op", "[0-9]+$", ".", "x1,", "Block [12]",
                         "a|b", "^Block.*0$"])                                           # several lines
     elif kind < 0.93:
-        pat = r.choice(["(", "[a", "a\\", "x{2,1}", ")", "*", "[[:foo:]]"])            # not a regular expression (some are)
+        pat = r.choice(["(", "[a", "a\\", "x{2,1}", ")", "*", "[[:foo:]]",            # not a regular expression (some are)
+                        # Perl-only syntax: not POSIX ERE (or, for the doubled repetitions, a different meaning)
+                        "\\d", "x\\d+", "(?i)block", "\\bop", "op1+?", "x1*?,", "\\Qop\\E", "o??p", "\\w+,"])
     else:
         a = r.choice(allins)[0]
         pat = r.choice(["x%d,  x%d" % (a % 32, (a // 4) % 32), "op%d   x%d," % (a % 5, a % 32), "a  b   c"])   # several spaces
